@@ -204,12 +204,12 @@ class SqliteStateStore(Generic[MODEL_T]):
             )
             row = cursor.fetchone()
 
-            if row is None:
-                self._save_state(state, conn)
-                conn.commit()
-                return
-
-            current_state = self._deserialize_state(row[0])
+            # A run without a row yet holds the defaults of the declared state type
+            current_state = (
+                self._create_default_state()
+                if row is None
+                else self._deserialize_state(row[0])
+            )
             merged = merge_state(current_state, state)
             self._save_state(merged, conn)  # type: ignore[arg-type]
             conn.commit()
